@@ -131,6 +131,14 @@ def install_solvers(ctx, log, singular=False):
     def lm_minimize(it, a, k):
         params, args = k["params"], k["args"]
         A, b = lib._arr(it, args[0]), lib._arr(it, args[1])
+        if len(params.names) != A.shape[1]:
+            # the cost function multiplies A by the parameter vector: a wrong number of parameters is a shape error
+            raise I.IRaise(ValueError(f"shapes {A.shape} and ({len(params.names)},) not aligned"))
+        # precondition of the assumed contract (callers must establish it): every start value lies strictly inside its
+        # bounds - bounded Levenberg-Marquardt cannot leave a start value that sits on the bound
+        for n in params.names:
+            if params.p[n].min is not None:
+                ctx.ensure(params.p[n].value > params.p[n].min, "A-lmfit precondition: start values strictly inside their bounds")
         out = LmParams()
         sfx = suffix("lsq")
         for i, n in enumerate(params.names):
@@ -260,21 +268,33 @@ def o05_3(tier):
             ctx.ensure([ctx.list_of(p) for p in ctx.list_of(ctx.get(fm, "big_edges_to_use"))] == used, "solve() does not modify the list of unknowns")
         return h
 
-    def mk_fix(shape, rows):
+    def mk_ic(shape, rows):
         def h(ctx):
+            # 'lsq' with a user-supplied initial condition of arbitrary NON-NEGATIVE values (zeros allowed): either lmfit is started strictly
+            # inside its bounds, or (entries dropped => shape error) the non-negative fallback decides; never a start value on the bound
             m, fr, fm, internal, used, mm, t0, _ = solve_fixture(ctx, shape, 1, rows)
+            c = len(used)
+            x0 = [ctx.real(f"ic{i}") for i in range(c)]
+            for v in x0:
+                ctx.assume(v >= 0, "pre")
             log = []
-            if ctx.mode == "sym":
-                install_solvers(ctx, log)
-            res = ctx.callm(fm, "solve", ctx.dict(), method="fix_stress")
-            ctx.ensure(len(ctx.keys(res)) == len(internal), "one reported value per internal interface")
-            M2 = [ctx.list_of(r) for r in ctx.list_of(ctx.get(fm, "matrix"))]
-            ctx.ensure(len(M2) == rows and all(len(r) == len(used) for r in M2), "solve() does not modify the stored matrix")
+            if ctx.mode != "sym":
+                return
+            install_solvers(ctx, log)
+            res = ctx.callm(fm, "solve", ctx.dict(), method="lsq", allow_negatives=False, initial_condition=list(x0))
+            ctx.ensure(ctx.keys(res) == list(range(len(internal))), "one reported value per internal interface")
+            kind = log[-1][0]
+            ctx.ensure(kind in ("lsq", "nnls"), "lmfit or the non-negative fallback decides")
+            for i in range(c):
+                ctx.ensure(ctx.item(res, i) == ctx.symbols[result_symbol(log, kind, i)], f"value {i} = entry {i} of that back end's result")
+                ctx.ensure(ctx.item(res, i) >= 0, f"value {i} non-negative")
         return h
+
     out = []
     for name, method in CONFIGS:
         for allow in (True, False):
             out.append((f"tri_star,2x3,{name},allow_negatives={allow}", mk("tri_star", 2, method, allow, False)))
+    out.append(("tri_star,2x3,lsq,user-initial-condition", mk_ic("tri_star", 2)))
     out.append(("tri_star,3x3-square,default,allow_negatives=True", mk("tri_star", 3, None, True, False)))
     out.append(("tri_star,3x3-square,default,allow_negatives=False", mk("tri_star", 3, None, False, False)))
     out.append(("tri_star,3x3-singular,default,allow_negatives=True", mk("tri_star", 3, None, True, True)))
